@@ -231,4 +231,15 @@ def register(reg):
     c05b_contracts.register_p2(reg, PID)
 
 
+_register_core = register
+
+
+def register(reg):
+    _register_core(reg)
+    # the tracker's own contracts (C04) are re-verified under this property: everything proved here about acks leans on them
+    for k_, c_ in reg.fns.items():
+        if ":InjectionTracker." in k_ and c_.verify and PID not in c_.also and c_.prop != PID:
+            c_.also.append(PID)
+
+
 BOUNDED = [nat.bounded_circuit_histories]
